@@ -956,7 +956,7 @@ def evaluate(groups, ctx, tag="c11"):
     shards, cur, npairs = [], [], 0
     layout = []
     for g in groups:
-        if npairs + len(g["pairs"]) > 380 and cur:
+        if npairs + len(g["pairs"]) > 270 and cur:
             shards.append(cur)
             cur, npairs = [], 0
         cur.append(g)
@@ -1124,9 +1124,10 @@ def lattice_stream(rep, tier, hcases):
 def evaluate_heaps(hcases, tag="c11h"):
     """-> ({fn: [indices]}, policy facts dict)."""
     shards = []
-    for i in range(0, len(hcases), 250):
+    per = 170
+    for i in range(0, len(hcases), per):
         body = ["Definition hcases : list hcase := %s." % E.lst(
-            ["\n " + CG.emit_hcase(h["kind"], h["gt"], reify_val) for h in hcases[i:i + 250]])]
+            ["\n " + CG.emit_hcase(h["kind"], h["gt"], reify_val) for h in hcases[i:i + per]])]
         for fn in H_FUNCS:
             body.append("Eval vm_compute in (indices_where %s hcases 0)." % fn)
         shards.append("\n".join(body) + "\n")
@@ -1141,7 +1142,7 @@ def evaluate_heaps(hcases, tag="c11h"):
         if rc != 0 or len(vals) != len(H_FUNCS):
             raise RuntimeError("graph shard %d failed to evaluate: %s" % (si, (so + se)[-1500:]))
         for fn, v in zip(H_FUNCS, vals):
-            out[fn] += [si * 250 + i for i in core.parse_nat_list(v)]
+            out[fn] += [si * per + i for i in core.parse_nat_list(v)]
     rc, so, se = res[-1]
     vals = core.parse_eval(so)
     if rc != 0 or len(vals) != 7:
@@ -1500,5 +1501,12 @@ def run(rep, tier):
              "properties / __validate__ hooks): a group of valid instances = base, same spelling, permuted container contents, "
              "numerically equal values of another type, changed / dropped / None-set / extra attributes; every ordered pair is "
              "a case; copies (copy, deepcopy, pickle) of selected instances; mutation histories (setattr + wrapper mutators, "
-             "valid and invalid arguments) on deep / unpickled copies in lockstep with a regular instance; distinct = distinct "
-             "(variant labels, eq, hash-eq, field kinds); identical pairs (i = i) are not counted as non-trivial")
+             "valid and invalid arguments) on deep / unpickled copies in lockstep with a regular instance; Anything fields and "
+             "undeclared attributes hold nested values with mutable objects inside half of the time, a quarter of the classes "
+             "inherit from Inner/Sub/Other; object graphs (by id()) of selected instances and of their copy/deepcopy/pickle copies: "
+             "no mutable object reachable from both (confirmed by an actual change through the shared object's interface), "
+             "lock-step changes of every reachable mutable object against a regular instance, graphs emitted to Coq; the same on a "
+             "deterministic lattice of value shapes (chains up to length 3, thorough 4, of tuple/list/deque/dict/set/frozenset "
+             "ending in a nested Structure or numbers, held by a typed field / an Anything field / an undeclared attribute); "
+             "distinct = distinct (variant labels, eq, hash-eq, field kinds) resp. (copy kind, holder, shape, outcome); identical "
+             "pairs (i = i) are not counted as non-trivial")
